@@ -475,9 +475,15 @@ def run_spec(spec: dict, capture: bool = True):
         now = inv["now"]
         world.advance(now)
         for widx, midx in inv.get("evict", []):
-            world.manual_evict(widx, midx)
+            try:
+                world.manual_evict(widx, midx)
+            except Exception as e:  # noqa: BLE001 - the worker refused to evict a model it reports as loaded
+                failures.append((len(obs), "evict-of-a-loaded-model-raised", {"worker": widx, "model": midx, "exc": repr(e)[:200]}))
         for widx, midx in inv.get("load", []):
-            world.manual_load(widx, midx)
+            try:
+                world.manual_load(widx, midx)
+            except Exception as e:  # noqa: BLE001
+                failures.append((len(obs), "load-on-a-worker-that-accepted-it-raised", {"worker": widx, "model": midx, "exc": repr(e)[:200]}))
         for tid in inv.get("release", []):
             t = world.tasks[tid]
             if tid not in world.released:
